@@ -90,6 +90,54 @@ var c09Shapes = []c09Shape{
 	}},
 }
 
+// c09Families: sets of DISTINCT tunnel ids that become equal under some plausible
+// normalisation of the id (case folding, trimming, separator/punctuation/non-ASCII
+// replacement, padding, truncation to N characters, unicode normal forms, escaping).
+// The routing table must keep them apart: ids are opaque exact strings.
+var c09Families = []struct {
+	name string
+	gen  func(r *rand.Rand) []string
+}{
+	{"case", func(r *rand.Rand) []string {
+		b := fmt.Sprintf("Tun-AbC-%x", r.Intn(1<<20))
+		return []string{b, strings.ToLower(b), strings.ToUpper(b), strings.Title(strings.ToLower(b)), "t" + b[1:]}
+	}},
+	{"trim-pad", func(r *rand.Rand) []string {
+		b := fmt.Sprintf("tun%d", r.Intn(100000))
+		return []string{b, " " + b, b + " ", b + "\n", "\t" + b, b + "\x00", b + "\r\n", "  " + b + "  ", "0" + b, b + "\u00a0", "\ufeff" + b}
+	}},
+	{"separator", func(r *rand.Rand) []string {
+		a, c := fmt.Sprintf("srv%d", r.Intn(1000)), fmt.Sprintf("t%d", r.Intn(1000))
+		var out []string
+		for _, sep := range []string{":", "/", "_", " ", "|", "*", "?", "\\", "\t", "#", "@", "+", "%", "=", ",", ";", "é", "世", "\u2028", "😀"} {
+			out = append(out, a+sep+c)
+		}
+		return out
+	}},
+	{"non-ascii", func(r *rand.Rand) []string {
+		k := r.Intn(1000)
+		return []string{fmt.Sprintf("隧道%d", k), fmt.Sprintf("通道%d", k), fmt.Sprintf("??%d", k), fmt.Sprintf("__%d", k), fmt.Sprintf("トン%d", k), fmt.Sprintf("éé%d", k), fmt.Sprintf("  %d", k), fmt.Sprintf("**%d", k)}
+	}},
+	{"numeric-pad", func(r *rand.Rand) []string {
+		k := 1 + r.Intn(9999)
+		return []string{fmt.Sprint(k), fmt.Sprintf("0%d", k), fmt.Sprintf("00%d", k), fmt.Sprintf("%08d", k), fmt.Sprintf("+%d", k), fmt.Sprintf("%d.0", k), fmt.Sprintf("%d ", k), fmt.Sprintf("0x%x", k)}
+	}},
+	{"truncate", func(r *rand.Rand) []string {
+		n := []int{8, 16, 32, 64, 128, 255}[r.Intn(6)]
+		pre := c09Rep(fmt.Sprintf("p%x-", r.Intn(1<<16)), n)[:n]
+		return []string{pre, pre + "A", pre + "B", pre + "AA", pre + "-0001", pre + "-0002", pre[:n-1], pre + pre}
+	}},
+	{"unicode-forms", func(r *rand.Rand) []string {
+		k := r.Intn(1000)
+		return []string{fmt.Sprintf("caf\u00e9-%d", k), fmt.Sprintf("cafe\u0301-%d", k), fmt.Sprintf("cafe-%d", k), fmt.Sprintf("ｃａｆｅ-%d", k), fmt.Sprintf("CAF\u00c9-%d", k),
+			fmt.Sprintf("stra\u00dfe-%d", k), fmt.Sprintf("strasse-%d", k), fmt.Sprintf("\u0130d-%d", k), fmt.Sprintf("id-%d", k), fmt.Sprintf("\u0131d-%d", k)}
+	}},
+	{"escaping", func(r *rand.Rand) []string {
+		k := r.Intn(1000)
+		return []string{fmt.Sprintf("a b-%d", k), fmt.Sprintf("a%%20b-%d", k), fmt.Sprintf("a+b-%d", k), fmt.Sprintf("a\\u0020b-%d", k), fmt.Sprintf("a&#32;b-%d", k), fmt.Sprintf("\"a b-%d\"", k), fmt.Sprintf("a\\ b-%d", k), fmt.Sprintf("a_b-%d", k)}
+	}},
+}
+
 var c09ClientIDs = []int64{0, 1, -1, math.MaxInt64, math.MinInt64, 1<<53 + 1, -(1<<53 + 1), 10000001, 99999999}
 var c09Ports = []int{0, 65535, -1, 80, 1, 65536, math.MaxInt32, math.MinInt32}
 
@@ -234,6 +282,7 @@ type c09History struct {
 	tidShape []string
 	nodeIDs  []string
 	ops      []c09Op
+	Family   string // non-empty: the tunnel ids are one family of ids that collide under a plausible normalisation
 }
 
 func (h *c09History) kinds() string {
@@ -287,7 +336,7 @@ func (h *c09History) describe() map[string]any {
 		}
 		ops = append(ops, s)
 	}
-	return map[string]any{"history": h.Index, "primary_shape": h.Primary, "nodes": h.NNodes, "tids": tids, "ops": ops}
+	return map[string]any{"history": h.Index, "primary_shape": h.Primary, "id_family": h.Family, "nodes": h.NNodes, "tids": tids, "ops": ops}
 }
 
 func c09GenRecord(r *rand.Rand, primary int, tid, nodeID string) (*WaitingState, map[string]string) {
@@ -335,7 +384,22 @@ func c09GenHistory(r *rand.Rand, idx int) *c09History {
 		h.tids = append(h.tids, s)
 		h.tidShape = append(h.tidShape, shape)
 	}
-	addTid(c09Shapes[primary].gen(r), c09Shapes[primary].name)
+	isFamily := idx >= len(c09Shapes) && idx%3 == 1
+	if isFamily {
+		fam := c09Families[(idx/3)%len(c09Families)]
+		h.Family = fam.name
+		members := fam.gen(r)
+		r.Shuffle(len(members), func(i, j int) { members[i], members[j] = members[j], members[i] })
+		nt = 3 + r.Intn(3)
+		for _, m := range members {
+			if len(h.tids) < nt && m != "" {
+				addTid(m, "family:"+fam.name)
+			}
+		}
+		nt = len(h.tids)
+	} else {
+		addTid(c09Shapes[primary].gen(r), c09Shapes[primary].name)
+	}
 	for len(h.tids) < nt {
 		switch r.Intn(5) {
 		case 0: // near-collision with an existing id
@@ -402,6 +466,25 @@ func c09GenHistory(r *rand.Rand, idx int) *c09History {
 		}
 		h.ops = append(h.ops, reregSeq(0, len(h.tids)-1)...)
 		return h
+	}
+	if isFamily {
+		// all members wait at the same time; each must resolve to its own record from every
+		// node; removing one must leave the others routable
+		for t := range h.tids {
+			h.ops = append(h.ops, reg(t%h.NNodes, t))
+		}
+		for t := range h.tids {
+			h.ops = append(h.ops, op("lookup", (t+1)%h.NNodes, t))
+		}
+		victim := r.Intn(len(h.tids))
+		h.ops = append(h.ops, op("remove", r.Intn(h.NNodes), victim))
+		for t := range h.tids {
+			h.ops = append(h.ops, op("lookup", r.Intn(h.NNodes), t))
+		}
+		h.ops = append(h.ops, reg(r.Intn(h.NNodes), victim))
+		for t := range h.tids {
+			h.ops = append(h.ops, op("lookup", r.Intn(h.NNodes), t))
+		}
 	}
 	n := 8 + r.Intn(22)
 	pastLeft := 2
@@ -677,6 +760,12 @@ func c09RunHistory(run *vk.Run, h *c09History, ttl time.Duration) {
 						continue
 					}
 					run.Count("hit_certain|"+b.name, 1)
+					if h.Family != "" && len(m.recs) >= 2 {
+						run.Count("hit_own_record_while_colliding_family_waits|"+b.name, 1)
+						if len(m.removed) > 0 {
+							run.Count("hit_after_family_sibling_removed|"+b.name, 1)
+						}
+					}
 					if !rec.prevRet.IsZero() && call.After(rec.prevRet.Add(ttl+c09Eps)) {
 						// resolved although the deadline of the superseded (identical) register has certainly passed
 						run.Count("hit_past_superseded_deadline|"+b.name, 1)
@@ -691,6 +780,12 @@ func c09RunHistory(run *vk.Run, h *c09History, ttl time.Duration) {
 					}
 				}
 				// resolved (certainly-before or tolerated): must be exactly what was registered
+				if got.TunnelID != tid {
+					// one signature for "the id resolved to ANOTHER tunnel's record" (key collision)
+					viol("C09:resolved-to-other-tunnel|backend="+b.name, b, oi, map[string]any{
+						"looked_up": c09Clip(tid), "got": c09Brief(got), "want": c09Brief(&rec.want), "id_family": h.Family})
+					continue
+				}
 				if diff := c09FieldDiff(got, &rec.want); len(diff) > 0 {
 					for _, f := range diff {
 						shape := rec.shapes[f]
@@ -779,7 +874,7 @@ func TestVerifC09Histories(t *testing.T) {
 	vk.Quiet()
 	run := vk.Start(t, "C09", "routing-histories")
 	defer run.Finish()
-	run.Rule("seeded histories of register/lookup/remove/wait/re-register (new data, and the IDENTICAL record again part-way through the TTL)/node-address ops over 1-5 tunnel ids (hostile strings, near-colliding ids) and 2-3 RoutingTable nodes, " +
+	run.Rule("seeded histories of register/lookup/remove/wait/re-register (new data, and the IDENTICAL record again part-way through the TTL)/node-address ops over 1-5 tunnel ids (hostile strings, near-colliding ids) and 2-3 RoutingTable nodes; every third history draws its ids from one family of distinct ids that collide under a plausible normalisation (case, trim/pad, separators, non-ASCII, numeric padding, truncation at 8..255 chars, unicode forms, escaping) with all members waiting at once; " +
 		"executed in lockstep on 6 backend configurations (memory, redis/miniredis clock mirrored, redis/miniredis clock frozen, hybrid(memory), hybrid(memory+shared miniredis) mirrored and frozen); " +
 		"history i uses value shape i mod |shapes| as primary shape, the first |shapes| histories follow a fixed template; distinct = (backend, primary shape, op-kind sequence)")
 	n := run.Pick(400, 5000)
@@ -823,6 +918,8 @@ func TestVerifC09Histories(t *testing.T) {
 		run.Floor("hit_from_other_node|"+b, int64(n/3))
 		run.Floor("expiry_observed|"+b, int64(n/3))
 		run.Floor("removal_observed|"+b, int64(n/3))
+		run.Floor("hit_own_record_while_colliding_family_waits|"+b, int64(n))
+		run.Floor("hit_after_family_sibling_removed|"+b, int64(n/4))
 		run.Floor("hit_past_superseded_deadline|"+b, int64(n/10))
 		run.Floor("addr_ok|"+b, int64(n/5))
 		for _, s := range c09Shapes {
